@@ -143,6 +143,8 @@ def main():
     if tier == "thorough" and src == "/repo":
         st_results = selftest(prop, mod)
         for r in st_results:
+            if r.get("skipped"):
+                print("SELFTEST-SKIPPED: property=%s variant `%s`: %s" % (prop, r["name"], r.get("why", "")))
             if not r["ok"] and not r.get("skipped"):
                 viols.append(
                     {
